@@ -37,7 +37,7 @@ m = {"version": 1,
                "baseline_off_cmd": "cd /repo && cargo nextest run --workspace --no-fail-fast --offline",
                "source_commits": hooks_commits, "add_only": True},
      "engines": [{"name": "tla-spec+harness", "path": "/verif/spec /verif/harness /verif/lib /verif/check",
-                  "serves_properties": sorted(PROPS.keys()),
+                  "serves_properties": sorted(k for k in PROPS.keys() if k in {p["id"] for p in props}),
                   "kind_free_text": "explicit TLA+ specification checked with TLC; Rust conformance harness replaying TLC-generated behaviours and recording traces for TLC trace validation"}],
      "checks": checks,
      "not_applicable": na,
